@@ -15,6 +15,10 @@ CHECKS = {
          "bounded-exhaustive enumeration of atom sequences and edit balls on the real lexers with tiling/aliasing/re-lex oracles after every Next",
          "For every enumerated input and every token position: the token is input[offset-len:offset] by pointer identity and equals a pristine copy modulo the two documented rewrites; tokens strictly ordered, non-overlapping, non-empty; css/js tokens tile the consumed bytes; html/xml gaps are whitespace before a tag closer; Text/AttrKey/AttrVal lie inside the token; append(token) cannot write into the input; each css/js token re-lexes to itself; the set of bytes altered in place is exactly the documented one. Exhaustive within the bounds.",
          "Bounds per alphabet in evidence (css 4 atoms full alphabet, html/js 3-4, xml 4; one more in thorough); JS restricted to valid UTF-8 as the property says; template middle/tail re-lexed after the prefix `${."),
+ "C07": ("model_checking",
+         "exhaustive enumeration of token-spelling pairs/triples x separators and of all short byte strings, each lexed by the real css.Lexer and by a transcription of the CSS Syntax 3 tokenizer (reference model), traces compared token by token",
+         "A vocabulary of ~170 spellings covering every token class and look-ahead of CSS Syntax 3 is combined exhaustively (all singles, all ordered pairs x 4 separators, all triples over a 46-spelling core x separators) and every byte string up to 4 atoms over a 61-atom alphabet (5 over the core) is enumerated; the real lexer's (type,text) list must equal the reference tokenizer's wherever the reference reports neither a spec parse error nor a documented ambiguity; malformed inputs are compared up to the malformed construct and for the BadString / one-BadURL-to-the-matching-paren clauses. IsIdent/IsURLUnquoted are compared with the library's own lexer on every enumerated string, incl. that the argument's array is untouched.",
+         "Reference = CSS Syntax 3 CR-2014 tokenizer (+ comments as tokens, --x as custom-property-name). Skipped as ambiguous: NUL / invalid UTF-8, url( spelled with hex escapes, number followed by --, unicode-range with >6 digits or a dangling '-' (library behaviour pinned by its own tests)."),
  "C10": ("model_checking",
          "exhaustive generation of valid documents and unpruned token/byte sequences on the real parser, lock-step shadow stack and encoding/json as reference",
          "Every valid JSON document up to the token bound (all escape forms incl. backslash runs before the closing quote, all number forms) x whitespace at every token boundary is parsed and re-joined through State(), and must equal json.Compact byte for byte; on every token sequence and byte string up to the bound a shadow container stack checks End units and State(); a strict reference tokenizer + grammar walk locates the four named error classes, which must surface as ErrorGrammar with a non-EOF error before any unit past the offending token. Abstract parser states/transitions reached are reported.",
